@@ -26,18 +26,33 @@ end Pandora.Go
 
 namespace Pandora.Model.C07
 
-/-- `bufio.MaxScanTokenSize` -/
+/-- `bufio.MaxScanTokenSize`: the token limit of a Scanner with its default buffer (the uri decoder before /repo 66b1841) -/
 def maxTok : Nat := 65536
+
+/-- `math.MaxInt` (64-bit): the `max` that `newLineScanner` gives to `Scanner.Buffer` since /repo 66b1841 -/
+def maxIntGo : Nat := 9223372036854775807
+
+/-- the token limit a Scanner configured with `Buffer(nil, max)` really has: a `max` of 2^62 or more is beyond what the
+Scanner itself can buffer (`len(buf) > maxInt/2` is its own give-up point) and beyond any line that exists: no limit -/
+def scanLimit (max : Nat) : Option Nat := if 4611686018427387904 ≤ max then none else some max
+
+/-- a line (without its `\n`) of `n` bytes is `bufio.ErrTooLong` for a Scanner with token limit `lim` -/
+def tooLong (lim : Option Nat) (n : Nat) : Bool :=
+  match lim with
+  | some l => decide (l ≤ n)
+  | none => false
 
 /-- how a decoder obtains the lines of the ammo file (the vocabulary of the regenerated facts `Pandora.Gen.AmmoDec`) -/
 inductive LineReader where
-  | scanner (limit : Nat)        -- `bufio.Scanner`, default split (`ScanLines`) and buffer: `Scan`/`Text`; a line of `limit` bytes or more is `ErrTooLong`
+  | scanner (limit : Nat)        -- `bufio.Scanner`, default split (`ScanLines`): `Scan`/`Text`; `limit` = bufio.MaxScanTokenSize with the default buffer, the `max` of `Buffer(nil, max)` otherwise (`scanLimit`: what that means for a line)
   | readString (delim : Nat)     -- `bufio.Reader.ReadString(delim)`: the line including the delimiter, any length
   | other (what : String)        -- anything else (ReadLine, ReadBytes, ReadSlice, a Scanner with its own buffer …): not what this model describes
 deriving DecidableEq, Repr
 
 /-- the read primitives the three pass functions below describe -/
-def uriReaderM : LineReader := .scanner maxTok
+def uriReaderM : LineReader := .scanner maxIntGo
+/-- the uri decoder's line limit: none (/repo 66b1841; before: `some maxTok`) -/
+def uriLimitM : Option Nat := scanLimit maxIntGo
 def uripostReaderM : LineReader := .readString LF.toNat
 def rawReaderM : LineReader := .readString LF.toNat
 
@@ -46,8 +61,11 @@ def dropCR (s : Bytes) : Bytes :=
   | some 13 => s.dropLast
   | _ => s
 
-/-- every line of the file (without its `\n`) fits a `bufio.Scanner` token -/
-def linesFit (file : Bytes) : Bool := (splitOn LF file).all fun l => l.length < maxTok
+/-- every line of the file (without its `\n`) fits a token of a Scanner with limit `lim` -/
+def linesFitL (lim : Option Nat) (file : Bytes) : Bool := (splitOn LF file).all fun l => !tooLong lim l.length
+
+/-- … of a Scanner with the default buffer (the decoder before /repo 66b1841) -/
+def linesFit (file : Bytes) : Bool := linesFitL (some maxTok) file
 
 theorem cut_rest_le (sep : UInt8) (s : Bytes) : (cut sep s).2.1.length ≤ s.length := by
   induction s with
@@ -90,21 +108,28 @@ def uriLine (tok : Bytes) (h : Hdrs) : LineRes :=
       let p := cut SP (b :: r)
       .ammo { method := getBytes, url := p.1, body := [], tag := p.2.1, hdrs := h }
 
-/-- one pass of `uriDecoder.Scan` over the remaining bytes `bs` with header accumulator `h` -/
-def uriPass (bs : Bytes) (h : Hdrs) : List Ammo × Stop :=
+/-- one pass of `uriDecoder.Scan` over the remaining bytes `bs` with header accumulator `h`, the Scanner having token
+limit `lim` -/
+def uriPassLim (lim : Option Nat) (bs : Bytes) (h : Hdrs) : List Ammo × Stop :=
   match bs with
   | [] => ([], .eof)
   | b :: r =>
     let p := cut LF (b :: r)
-    if maxTok ≤ p.1.length then ([], .err .toolong)
+    if tooLong lim p.1.length then ([], .err .toolong)
     else
       match uriLine (dropCR p.1) h with
-      | .skip h' => uriPass p.2.1 h'
-      | .ammo a => let q := uriPass p.2.1 h; (a :: q.1, q.2)
+      | .skip h' => uriPassLim lim p.2.1 h'
+      | .ammo a => let q := uriPassLim lim p.2.1 h; (a :: q.1, q.2)
       | .err e => ([], .err e)
 termination_by bs.length
 decreasing_by
   all_goals exact cut_rest_lt LF b r
+
+/-- the uri decoder of /repo (since 66b1841: `newLineScanner`, no line limit) -/
+abbrev uriPass (bs : Bytes) (h : Hdrs) : List Ammo × Stop := uriPassLim none bs h
+
+/-- the uri decoder before that repair: a default `bufio.Scanner`, lines of 64 KiB and more are `token too long` -/
+abbrev uriPassOld (bs : Bytes) (h : Hdrs) : List Ammo × Stop := uriPassLim (some maxTok) bs h
 
 /-! ### uripost -/
 
@@ -252,8 +277,10 @@ def decodeCfg : List Bytes → Except Err Hdrs
       | .error e => .error e
       | .ok t => .ok (kv :: t)
 
-def uriDeliver (file : Bytes) (k : Nat) (preload : Bool) : List Ammo × Stop :=
-  deliver (uriPass file []) k preload
+def uriDeliverLim (lim : Option Nat) (file : Bytes) (k : Nat) (preload : Bool) : List Ammo × Stop :=
+  deliver (uriPassLim lim file []) k preload
+
+abbrev uriDeliver (file : Bytes) (k : Nat) (preload : Bool) : List Ammo × Stop := uriDeliverLim none file k preload
 
 def uripostDeliver (fixed : Bool) (file : Bytes) (k : Nat) (preload : Bool) : List Ammo × Stop :=
   deliver (uripostPass fixed file []) k preload
